@@ -22,6 +22,7 @@ type histChecker struct {
 	nWindows   int             // ops whose window spanned more than one log position
 	acked      map[string]bool // strings.Join(args) of acknowledged changing writes
 	pendingOps []*Op
+	curConn    string
 	cmpValid   bool
 	cmpDigest  uint64
 	cmpEntries int
@@ -78,6 +79,9 @@ func (hc *histChecker) onEntry(e *lmEntry, before, after *Model) {
 		return
 	}
 	g := hc.grantAt(e.step)
+	if g != nil && (g.role == "cmd" || g.role == "luacall") {
+		e.conn = g.conn
+	}
 	if g != nil && g.role == "expire" {
 		e.owner = "expire"
 		w.stat("probe.expiry_logged", 1)
@@ -123,6 +127,7 @@ func (hc *histChecker) onReply(op *Op, connID string) {
 	lm.poll()
 	hc.nChecked++
 	if len(op.Cmd.Inner) > 0 {
+		hc.curConn = connID
 		hc.onScriptReply(op)
 		return
 	}
@@ -148,7 +153,7 @@ func (hc *histChecker) onReply(op *Op, connID string) {
 	}
 	var firstErr error
 	for k := lo; k <= hi; k++ {
-		if k < len(lm.entries) && sameArgs(lm.entries[k].args, op.Cmd.Args) && lm.entries[k].owner == "" {
+		if k < len(lm.entries) && sameArgs(lm.entries[k].args, op.Cmd.Args) && lm.entries[k].owner == "" && lm.entries[k].conn == connID {
 			// candidate: the op is log entry k
 			e := &lm.entries[k]
 			if e.step >= op.Invoke && e.step <= op.Return {
@@ -226,7 +231,7 @@ func (hc *histChecker) onScriptReply(op *Op) {
 			if e.step > op.Return {
 				break
 			}
-			if e.owner == "" && sameArgs(e.args, in) {
+			if e.owner == "" && sameArgs(e.args, in) && (e.conn == hc.curConn || hc.curConn == "") {
 				found = j
 				break
 			}
